@@ -254,7 +254,9 @@ impl Parser {
             // This way, the expression: [NOT a AND b OR c], will be parsed as: (OR (AND (NOT a) b) c)
             Token::Not => {
                 self.next_token();
-                let expr = self.parse_expr_bp(3)?; // NOT precedence
+                // Operand binding power 5: comparisons (5, 6) still belong to the NOT operand,
+                // but AND (3, 4) and OR (1, 2) end it, so `NOT a AND b` is `(NOT a) AND b`.
+                let expr = self.parse_expr_bp(5)?; // NOT precedence
                 Ok(Expr::UnaryOp {
                     op: UnaryOperator::Not,
                     expr: Box::new(expr),
